@@ -83,6 +83,24 @@ type zrState struct {
 func (eng *Engine) initStubs2() {
 	s := eng.stubs
 	eng.initStubsBinary()
+	// hash/maphash (level/biome keys its name table by it): the seed is a zero
+	// value, Bytes of a concrete byte string is its FNV-1a hash (a fixed
+	// function, as maphash is within one process); symbolic input is not modelled.
+	s["hash/maphash.MakeSeed"] = func(e *Exec, _ *frame, fn *ssa.Function, _ []Value) Value {
+		return e.zero(fn.Signature.Results().At(0).Type())
+	}
+	s["hash/maphash.Bytes"] = func(e *Exec, _ *frame, _ *ssa.Function, args []Value) Value {
+		h := uint64(14695981039346656037)
+		for _, c := range args[1].(Slice).c {
+			t, ok := c.(*Term)
+			if !ok || !t.IsConst() {
+				e.unsupported("maphash.Bytes of symbolic bytes")
+			}
+			h ^= t.Const() & 0xff
+			h *= 1099511628211
+		}
+		return e.tc.BV(h, 64)
+	}
 	// strings.EqualFold: ASCII case folding only (non-ASCII bytes must match
 	// exactly); the real function walks Unicode fold orbits per rune.
 	s["strings.EqualFold"] = func(e *Exec, _ *frame, _ *ssa.Function, args []Value) Value {
